@@ -54,7 +54,7 @@ def check_verify_wiring(rep, prog):
                 return False    # follow the arm where the key is not disqualified
             return None
         sc = Scenario(args=scen_args, oracle=oracle, inline=lambda f: False,
-                      axioms={'(len(sspairs) == 0)': False})
+                      axioms={'(len(sspairs) == 0)': False, 'sspairs': True})
         I = Interp(prog, sc)
         outs = I.run(fi)
         rep.analysed['paths'] += len(outs)
